@@ -22,8 +22,15 @@ package codegen
 //@   pure
 //@ trusted golang.org/x/text/cases.Title(t, opts) (c)
 //@   pure
-//@ func (*builder).buildObject [C06]
+// C01: the implementor list of an object (what generated code passes to CollectFields as the set of type
+// conditions the object satisfies) is taken from Schema.GetImplements - interfaces AND unions the type belongs to -
+// one entry per element, looked up by that element's name.
+//@ trusted (*github.com/vektah/gqlparser/v2/ast.Schema).GetImplements(def) (defs)
+//@   pure
+//@ func (*builder).buildObject [C06,C01]
 //@   requires b != nil && typ != nil && b.Schema != nil && b.Config != nil
+//@   at! `b.Schema.GetImplements(typ)` requires arg0 == typ
+//@   at! `append(obj.Implements, b.Schema.Types[intf.Name])` requires arg1 == b.Schema.Types[intf.Name]
 //@   at `assign obj` requires rhs0.Definition == typ && (rhs0.DisableConcurrency <==> typ == b.Schema.Mutation) && (rhs0.Stream <==> typ == b.Schema.Subscription)
 //@   ensures res1 == nil ==> res0 != nil
 //@ func (*Field).IsConcurrent [C06]
@@ -136,6 +143,12 @@ package codegen
 //@ trusted (context.Context).Value(key) (v)
 //@   nopanic
 //@   pure
+// C01 (every exec layout): when the schema has a FIELD-location directive the generated package holds the dispatcher
+// _fieldMiddleware; then every field function that resolves anything goes through it - never straight to
+// ResolverMiddleware - no matter which generated file the field's type ended up in (follow-schema renders each
+// schema file with its own template data).
+//@ family fieldmw [C01,C04]
+//@   callsite ResolverMiddleware: requires false
 //@ family deferredgroup [C13,C05,C04]
 //@   replay nestedDefer.go.tmpl for Delivered
 //@   gosafe
